@@ -366,6 +366,7 @@ func registerIntrinsics(ex *Exec) {
 	registerNative3(ex)
 	registerSync(ex)
 	registerFmt(ex)
+	registerConcretizing(ex)
 }
 
 // nativeError builds an error value (*errors.errorString) for a message.
